@@ -224,6 +224,12 @@ class Fn:
         self.selftype = CLASS_TYPE[cls] if cls else None
         self.lean = PREFIX[self.selftype] + node.name
         self.is_property = any(isinstance(d, ast.Name) and d.id == 'property' for d in node.decorator_list)
+        # a decorator changes what a call / attribute read means (`cached_property`: computed once and then stale,
+        # `lru_cache`, `staticmethod`, ...): only `@property` is understood (seeded defect C09-v4 went unnoticed before)
+        # (`classmethod`: `AttackGraph._from_dict`, translated by the agserial domain, which treats `cls(..)` itself)
+        for d in node.decorator_list:
+            if not (isinstance(d, ast.Name) and d.id in ('property', 'classmethod')):
+                raise Unsupported(f'decorator @{ast.unparse(d)} on {cls}.{node.name}')
         args = node.args.args
         self.params = []        # (pyname, type)
         for i, a in enumerate(args):
@@ -255,6 +261,24 @@ def closure(modules):
         want.add(m); todo.extend(IMPORTS[m])
     return [m for m in MODULE_ORDER if m in want]
 
+# `x == y`, `x in l`, `l.remove(x)` on AttackGraphNode / Attacker objects are translated as identity of references
+# (Prelude: "two distinct objects of one graph differ in `id`, so dataclass `==` is identity there").  That reading rests
+# on the class header: a plain `@dataclass` whose generated `__eq__` compares every field, `id` included.
+IDENTITY_EQ_CLASSES = ('AttackGraphNode', 'Attacker')
+def check_class_header(path, c: ast.ClassDef):
+    if c.name not in IDENTITY_EQ_CLASSES: return
+    if not (len(c.decorator_list) == 1 and isinstance(c.decorator_list[0], ast.Name) and c.decorator_list[0].id == 'dataclass'):
+        raise Unsupported(f'{path}: class {c.name} is not a plain @dataclass (its == is translated as identity of objects with distinct ids)')
+    for n in c.body:
+        if isinstance(n, ast.FunctionDef) and n.name in ('__eq__', '__ne__', '__hash__'):
+            raise Unsupported(f'{path}: class {c.name} defines {n.name} (== is translated as identity of objects with distinct ids)')
+        if isinstance(n, ast.AnnAssign) and isinstance(n.value, ast.Call) and \
+                isinstance(n.value.func, ast.Name) and n.value.func.id == 'field':
+            for kw in n.value.keywords:
+                if kw.arg == 'compare' and not (isinstance(kw.value, ast.Constant) and kw.value.value is True):
+                    raise Unsupported(f'{path}: field {ast.unparse(n.target)} of {c.name} is left out of == '
+                                      f'(== is translated as identity of objects with distinct ids)')
+
 def collect(repo, order=None):
     fns: dict[str, Fn] = {}
     by_method: dict[tuple, Fn] = {}
@@ -271,6 +295,7 @@ def collect(repo, order=None):
             else:
                 for c in tree.body:
                     if isinstance(c, ast.ClassDef) and c.name == cls:
+                        check_class_header(path, c)
                         for n in c.body:
                             if isinstance(n, ast.FunctionDef) and n.name == name: found = n
             if found is None:
